@@ -21,7 +21,7 @@ func init() {
 		if tier == "thorough" {
 			n = 2500
 		}
-		return Plan{Runs: n, Level: "exploration", Rule: "one run = 1-3 validator instances (own work_dirs; equal or different update intervals; provisioned at equal or different phases) with CRL sources from {crl_files, crl_urls, CDP}, signature mode, fetch mode and backend drawn per run; a refresh-outcome history fail^k then succeed (k = 0..3, failures from the origin fault menu); at t_p an acceptable newer version revoking a probe serial is published and faults stop; the scheduler is adversarial about which instance's refresh runs first; oracles: (a) every instance fetches every URL it knows in every window of 2*interval+eps after it learnt it, (b) at t_p + 3*interval + eps every instance rejects the newly revoked serial, (c) configured crl_files/crl_urls are in force when Provision returns; non-trivial = more than one instance, or at least one failed refresh before t_p; distinct = distinct (scenario, schedule) fingerprints"}
+		return Plan{Runs: n, Level: "exploration", Rule: "one run = 1-3 validator instances (own work_dirs; equal or different update intervals; provisioned at equal or different phases) with CRL sources from {crl_files, crl_urls, CDP}, signature mode, fetch mode and backend drawn per run; a refresh-outcome history fail^k then succeed (k = 0..3, failures from the origin fault menu incl. a newer list that fails signature verification); at t_p an acceptable newer version revoking a probe serial is published and faults stop; the scheduler is adversarial about which instance's refresh runs first; oracles: (a) every instance fetches every URL it knows in every window of 2*interval+eps after it learnt it, (b) at t_p + 3*interval + eps every instance rejects the newly revoked serial, (c) configured crl_files/crl_urls are in force when Provision returns; non-trivial = more than one instance, or at least one failed refresh before t_p; distinct = distinct (scenario, schedule) fingerprints"}
 	}, Run: runC15})
 	register(&PropDef{ID: "C20", Plan: func(tier string) Plan {
 		n := 140
@@ -119,19 +119,32 @@ func runC15(h *Harness) {
 	}
 	h.Quiesce()
 	// fail^k: k refresh periods during which the origins misbehave
-	faults := []string{oDown, oHTTP500, oGarbage, oTrunc, oEmpty}
+	faults := []string{oDown, oHTTP500, oGarbage, oTrunc, oEmpty, "badsig", "stranger"}
+	var fseq []string
 	for j := 0; j < k; j++ {
 		for _, in := range insts {
-			in.loc.State = faults[tp.Int(len(faults))]
+			f := faults[tp.Int(len(faults))]
+			fseq = append(fseq, f)
+			if f == "badsig" || f == "stranger" {
+				// the origin publishes the newer list in a form that fails signature verification: a refresh outcome
+				// "rejected", after which the next acceptable list must still be fetched and applied
+				in.loc.State, in.loc.Cur, in.loc.Variant = oGood, 1, f
+				if in.source == "file" {
+					os.WriteFile(in.file, in.loc.Doc().Bytes, 0600)
+				}
+				continue
+			}
+			in.loc.State, in.loc.Variant = f, ""
 			if in.source == "file" {
 				os.WriteFile(in.file, []byte("garbage"), 0600)
 			}
 		}
 		h.Settle(maxIvl + time.Minute)
 	}
+	sc["fail_seq"] = fseq
 	// t_p: publish the acceptable newer version; faults stop
 	for _, in := range insts {
-		in.loc.State, in.loc.Cur = oGood, 1
+		in.loc.State, in.loc.Cur, in.loc.Variant = oGood, 1, ""
 		if in.source == "file" {
 			os.WriteFile(in.file, in.loc.Versions[1].Bytes, 0600)
 		}
@@ -352,7 +365,7 @@ func runC20(h *Harness) {
 			n = h.NewNodeOn(fmt.Sprintf("n1c%d", c), cfg, wd)
 		}
 		for _, l := range locs {
-			l.State = oGood // configured URLs must be reachable for provisioning to be expected to succeed
+			l.State, l.Variant = oGood, "" // configured URLs must be reachable for provisioning to be expected to succeed
 		}
 		h.Disk.OsFault = nil
 		if err := h.Provision(n); err != nil {
@@ -369,10 +382,13 @@ func runC20(h *Harness) {
 		for j := 0; j < 2+tp.Int(3); j++ {
 			l := locs[tp.Int(len(locs))]
 			if faulty && tp.Chance(1, 3) {
-				l.State = Pick(tp, oDown, oGarbage, oTrunc, oHTTP500)
+				l.State, l.Variant = Pick(tp, oDown, oGarbage, oTrunc, oHTTP500, "badsig", "badsig"), ""
+				if l.State == "badsig" {
+					l.State, l.Variant = oGood, "badsig" // delivered intact, rejected by signature verification
+				}
 				h.R.NonTrivial = true
 			} else {
-				l.State = oGood
+				l.State, l.Variant = oGood, ""
 			}
 			if faulty && tp.Chance(1, 4) {
 				base := len(h.Disk.OsLog)
